@@ -267,7 +267,7 @@ def shard(ctx):
             c['kind'] = 'nonconventional'
             cases.append(c)
         else:
-            c = mmdb.decode_case(rng, twin=rng.random() < 0.3)
+            c = mmdb.decode_case(rng, twin=rng.choice((False, False, False, False, True, True, 'same_vars')))
             c['kind'] = 'table'
             tw = c.pop('twin', None)
             cases.append(c)
